@@ -865,7 +865,7 @@ def decode_instr(prog, m, p):
                 coff += iv * sc
         return ('gep', dst, base, coff, tuple(dyn))
     if op == 'load':
-        p.accept('atomic')
+        atomic = p.accept('atomic')
         p.accept('volatile')
         t = p.type()
         p.expect(',')
@@ -874,9 +874,9 @@ def decode_instr(prog, m, p):
         rt = m.resolve(t)
         if rt.k in ('struct', 'arr', 'vec'):
             raise NotImplementedError('aggregate load')
-        return ('load', dst, a, m.size_align(t)[0], width(t))
+        return ('load', dst, a, m.size_align(t)[0], width(t), atomic)
     if op == 'store':
-        p.accept('atomic')
+        atomic = p.accept('atomic')
         p.accept('volatile')
         t = p.type()
         v = V(t)
@@ -886,7 +886,7 @@ def decode_instr(prog, m, p):
         rt = m.resolve(t)
         if rt.k in ('struct', 'arr', 'vec'):
             raise NotImplementedError('aggregate store')
-        return ('store', None, a, v, m.size_align(t)[0], width(t))
+        return ('store', None, a, v, m.size_align(t)[0], width(t), atomic)
     if op == 'alloca':
         t = p.type()
         n = 1
